@@ -3,26 +3,26 @@
 import json, subprocess, sys
 ALL = ["C%02d" % i for i in range(1, 19)]
 CHECKS = {
- "C01": dict(ref="4 C01", technique="model-based property testing over generated operation histories (proptest), reference-model oracle",
-   text="Generated operation histories (proptest, shrunk as one value) are run on the library and on an abstract tree model written from the rustdoc; every result, error kind, listing order, metadata value, length and byte is compared after every step, in full dumps and after reopening. Exploration: held on everything explored, no proof of absence.",
+ "C01": dict(ref="4 C01", technique="model-based property testing over generated operation histories (proptest), reference-model oracle; coverage-guided fuzzing of operation histories (libFuzzer target fz_hist, same oracle) in the thorough tier",
+   text="Generated operation histories (proptest, shrunk as one value) are run on the library and on an abstract tree model written from the rustdoc; every result, error kind, listing order, metadata value, length and byte is compared after every step, in full dumps and after reopening. Exploration: held on everything explored, no proof of absence. Thorough tier: a libFuzzer campaign (fz_hist) mutates byte-encoded histories (one 16-byte record per operation) under coverage feedback from the library and runs each through the same case runner and oracle; artifacts are decoded into ordinary replay cases.",
    note="Trusted: the harness model (model.rs), the name oracle (names.rs, upper-casing table extracted from Perl's Unicode database, Unicode<=3.0 mappings only), the in-memory backend."),
- "C02": dict(ref="4 C02", technique="model-based property testing with snapshot-and-reopen oracle at every operation boundary",
-   text="Same histories with stream-handle operations; at every operation boundary without unflushed handle data the raw backend bytes (no flush, no into_inner) are reopened in permissive and strict mode and compared with the model, and regularly the reopened object replaces the live one so that continuing on it is judged by the model too.",
+ "C02": dict(ref="4 C02", technique="model-based property testing with snapshot-and-reopen oracle at every operation boundary; coverage-guided fuzzing of operation histories (libFuzzer target fz_hist, same oracle) in the thorough tier",
+   text="Same histories with stream-handle operations; at every operation boundary without unflushed handle data the raw backend bytes (no flush, no into_inner) are reopened in permissive and strict mode and compared with the model, and regularly the reopened object replaces the live one so that continuing on it is judged by the model too. Thorough tier: a libFuzzer campaign (fz_hist) mutates byte-encoded histories (one 16-byte record per operation) under coverage feedback from the library and runs each through the same case runner and oracle; artifacts are decoded into ordinary replay cases.",
    note="Trusted: the harness's tracking of 'possibly dirty' handles; model as in C01."),
- "C03": dict(ref="4 C03 and 3.3", technique="property-based testing with an independent format checker as oracle (invariant over the history)",
-   text="An MS-CFB parser/checker written from the specification (no code shared with the crate) judges the raw byte image after every operation of generated histories, including a large-file profile reaching several FAT sectors, DIFAT sectors, several directory and MiniFAT sectors.",
+ "C03": dict(ref="4 C03 and 3.3", technique="property-based testing with an independent format checker as oracle (invariant over the history); coverage-guided fuzzing of operation histories (libFuzzer target fz_hist, same oracle) in the thorough tier",
+   text="An MS-CFB parser/checker written from the specification (no code shared with the crate) judges the raw byte image after every operation of generated histories, including a large-file profile reaching several FAT sectors, DIFAT sectors, several directory and MiniFAT sectors. Thorough tier: a libFuzzer campaign (fz_hist) mutates byte-encoded histories (one 16-byte record per operation) under coverage feedback from the library and runs each through the same case runner and oracle; artifacts are decoded into ordinary replay cases.",
    note="Trusted: refparse.rs (core rules R01-R31 transcribe the clauses of the statement; advisory rules never fail); validated against the synthesizer's images and negative images."),
  "C04": dict(ref="4 C04 and 3.4", technique="property-based round-trip: independent writer (layout synthesizer) -> library reader, then model-based histories on the foreign file",
    text="An independent writer encodes generated logical contents in generated legal physical layouts (permuted/fragmented sectors and mini sectors, permuted directory slots with gaps, balanced red-black trees, DIFAT sectors); the library must open them in both modes and expose exactly the encoded content, and short mutation histories on them are judged by the C01-C03 oracles.",
    note="Trusted: synth.rs and refparse.rs (both harness code, cross-checking each other); 'spec-valid' is MS-CFB as read by the harness author."),
  "C05": dict(ref="4 C05, 2.5, 3.6", technique="structured-corruption property testing (field-level corruption catalogue over valid images) with panic/CPU/allocation oracles; coverage-guided fuzzing (libFuzzer) in the thorough tier",
-   text="Valid images (foreign layouts and library-written) are damaged by 1-4 generated field-level corruptions; both open modes and a generated read-only script must return without panic, within a CPU budget and within a peak-allocation bound linear in the input length (counting allocator). Worker crashes and hangs are attributed to the case in flight and confirmed alone under rlimits.",
+   text="Valid images (foreign layouts and library-written) are damaged by 1-4 generated field-level corruptions; both open modes and a generated read-only script must return without panic, within a CPU budget and within a peak-allocation bound linear in the input length (counting allocator). Worker crashes and hangs are attributed to the case in flight and confirmed alone under rlimits. Composite corruption: file extended beyond FAT coverage with a table cell or chain head pointing into the uncovered tail. Scenario: readers claiming up to 2^64-1 bytes (valid small prefix), each probed alone in a child process under CPU and address-space limits, peak heap bounded.",
    note="Covers every field with every value class singly and in small combinations; violations needing many coordinated corruptions are unlikely to be reached. Memory bound constant derived in DESIGN.md 2.5."),
  "C06": dict(ref="4 C06", technique="model-based property testing of call sequences against a Vec<u8>+cursor model, repeated across all buffer-size/version configurations",
    text="Generated call sequences on one stream handle are executed under 10 max_buffer_size settings x 2 versions and every return value is compared with a byte-vector-and-cursor model that does not depend on the configuration.",
    note="Trusted: the cursor model in engine_handles.rs; read may return any non-empty prefix."),
- "C07": dict(ref="4 C07", technique="model-based property testing of interleaved handle and structural operations (stateful generation)",
-   text="Histories interleave operations through several open handles with creations, removals and resizes of other entries; the whole tree, all metadata and all stream contents are compared with a model in which a handle operation touches only its own stream, plus the independent checker for damage outside the API's reach.",
+ "C07": dict(ref="4 C07", technique="model-based property testing of interleaved handle and structural operations (stateful generation); coverage-guided fuzzing of operation histories (libFuzzer target fz_hist, same oracle) in the thorough tier",
+   text="Histories interleave operations through several open handles with creations, removals and resizes of other entries; the whole tree, all metadata and all stream contents are compared with a model in which a handle operation touches only its own stream, plus the independent checker for damage outside the API's reach. Thorough tier: a libFuzzer campaign (fz_hist) mutates byte-encoded histories (one 16-byte record per operation) under coverage feedback from the library and runs each through the same case runner and oracle; artifacts are decoded into ordinary replay cases.",
    note="Trusted: model; the generator never removes/overwrites a stream with an open handle and never opens two handles on one stream."),
  "C08": dict(ref="4 C08", technique="property-based testing with a zero-fill oracle and a physical 'ever non-zero' shadow bitmap to target reuse",
    text="Histories of writes, shrinks, grows and removals; after each growing set_len the gained range must read zero through the same handle, a fresh handle and after reopening; non-trivial cases are those where the gained range physically overlaps bytes that were non-zero earlier.",
@@ -30,17 +30,17 @@ CHECKS = {
  "C09": dict(ref="4 C09 and 3.2", technique="property-based testing with independent name validator, UTF-16 shortlex comparator and path normaliser as oracles",
    text="Unicode names from a closed alphabet (incl. exceptional upper-casing and supplementary-plane characters), case variants, path spellings and invalid names are exercised in random insert/remove orders; validity, case-insensitive lookup, listing order and path normalisation are judged by oracles that share nothing with the crate.",
    note="Trusted: names.rs; alphabet restricted to characters whose simple upper-casing is stable from Unicode 3.0 to 14."),
- "C10": dict(ref="4 C10", technique="model-based property testing with byte-identity oracle on every refused call",
-   text="Histories with about half of the calls aimed at refusals; every call that returns NotFound/AlreadyExists/InvalidInput must leave the backend bytes identical and the model unchanged, so all later results are compared as if the call had not been made.",
+ "C10": dict(ref="4 C10", technique="model-based property testing with byte-identity oracle on every refused call; coverage-guided fuzzing of operation histories (libFuzzer target fz_hist, same oracle) in the thorough tier",
+   text="Histories with about half of the calls aimed at refusals; every call that returns NotFound/AlreadyExists/InvalidInput must leave the backend bytes identical and the model unchanged, so all later results are compared as if the call had not been made. Thorough tier: a libFuzzer campaign (fz_hist) mutates byte-encoded histories (one 16-byte record per operation) under coverage feedback from the library and runs each through the same case runner and oracle; artifacts are decoded into ordinary replay cases.",
    note="Trusted: model and refusal sets of DESIGN.md 3.1."),
  "C11": dict(ref="4 C11, 3.6", technique="structured-corruption property testing restricted to fields permissive open does not validate, followed by generated mutation histories (model-less interpreter); coverage-guided fuzzing in the thorough tier",
-   text="Valid images are damaged in the fields that permissive open does not check (stream/root start sectors and sizes, chain cells, MiniFAT cells, cycles) and kept if open accepts; then 1-8 generated mutating operations chosen from what the library itself lists must all return Ok or Err - no panic (debug assertions and overflow checks on), no hang (CPU budget).",
+   text="Valid images are damaged in the fields that permissive open does not check (stream/root start sectors and sizes, chain cells, MiniFAT cells, cycles) and kept if open accepts; then 1-8 generated mutating operations chosen from what the library itself lists must all return Ok or Err - no panic (debug assertions and overflow checks on), no hang (CPU budget). The composite corruption 'chain head in a sector beyond FAT coverage' is drawn too.",
    note="Quick tier on the checked build (assertions on); thorough also on the release-semantics build."),
  "C12": dict(ref="4 C12", cat="fault_enumeration", technique="exhaustive single-fault enumeration (plus pairs) over generated read workloads, differential against the fault-free run and the true content",
    text="For generated read-only workloads every position k of the underlying read/seek call sequence gets a run with that call failing (all k, plus pairs); each API call must return Err only when a fault fired during it, otherwise its fault-free value, and bytes delivered must equal the true content at the position the handle reports, also on retries.",
    note="Exhaustive over single fault positions per workload; workloads and pairs are sampled. Trusted: model, synthesizer (images), fault backend."),
  "C13": dict(ref="4 C13", cat="fault_enumeration", technique="exhaustive single-fault enumeration over generated mutating workloads with read-back oracle after every successful flush",
-   text="For generated mutating workloads every position k of the underlying write/seek/flush sequence gets a run with that call failing; the API call in progress must return Err, nothing may panic or hang afterwards, and whenever Stream::flush returns Ok (first try or retry) a fresh handle must read back every byte accepted by earlier writes on that handle.",
+   text="For generated mutating workloads every position k of the underlying write/seek/flush sequence gets a run with that call failing; the API call in progress must return Err, nothing may panic or hang afterwards, and whenever Stream::flush returns Ok (first try or retry) a fresh handle must read back every byte accepted by earlier writes on that handle. Scenario step: a version-3 stream grown to just below the capacity of 109 FAT sectors, then written across the 110th-112th FAT sector (first DIFAT sector) with a fault at the library's write-side calls around every header update (thorough: at every one), each followed by retry and continued growth.",
    note="Exhaustive over single fault positions per workload; workloads are sampled; faults inside Drop are exempt as documented."),
  "C14": dict(ref="4 C14, 2.7", technique="schedule-controlled concurrency testing: generated thread scripts x generated schedules under a deterministic scheduler over a lock-observer hook, with a lock-discipline invariant and a model-based linearisability check",
    text="Reader-thread scripts, a stream-I/O script and a schedule are generated; real threads run one at a time under a scheduler that owns every lock event (hook behind cargo feature verif-hooks) and models std's writer-preferring RwLock, so a deadlock is decided without any clock and re-entrant acquisition is detected independently of the schedule (the scheduler then constructs the deadlocking schedule). Reader results are compared with the model at I/O call boundaries.",
